@@ -1,6 +1,7 @@
 """C11 — the formatter preserves meaning (structural clauses)."""
 from checks.common import Ctx
 from sa.report import Check
+from sa.rules import flow_rules as FLW
 from sa.rules import adjacency as A
 from sa.rules import fmt_rules as F
 from sa.rules import grammar_rules as GR
@@ -33,4 +34,5 @@ def main(tier):
     chk.run("R-FMTGUARD", F.fmtguard, r, floor=4)
     chk.run("R-FMTSELFCHECK", F.sanity_check_shape, r, floor=3)
     chk.run("R-FMTPARTS", F.fmtparts, cx.repo, floor=1)
+    chk.run("R-STALELOOPVAR", FLW.staleloopvar, cx.repo, modules=("front_end/format_emb.py",), floor=5, control=lambda: FLW.control_staleloopvar(cx.repo))
     return chk.finish()
